@@ -200,7 +200,7 @@ func c08Build(r *Rng, p gridPt) *Scenario {
 			lc.OrderCols = []int{0}
 		}
 	case "aggregate-ordered-keyexpr":
-		// groups derived from the key by an expression (substr takes start and END) that is not monotone in the key:
+		// groups derived from the key by an expression (kvql's substr panics for most start > 0 - `val[start:min(length, len-start)]` - so the part after the underscore is taken with split) that is not monotone in the key:
 		// the groups are first met in an order that is not their sorted order
 		perm := make([]int, p.r)
 		for i := range perm {
@@ -216,7 +216,7 @@ func c08Build(r *Rng, p gridPt) *Scenario {
 				}
 			}
 		}
-		lc.Base = "select substr(key, 8, 13) as g, count(1) as c where key ^= 'k' group by g order by g" + pick(r, []string{"", " asc", " desc"})
+		lc.Base = "select split(key, '_')[1] as g, count(1) as c where key ^= 'k' group by g order by g" + pick(r, []string{"", " asc", " desc"})
 		lc.OrderCols = []int{0}
 	case "aggregate-all":
 		// no GROUP BY: the unlimited result is one row (none when nothing passes)
